@@ -21,7 +21,8 @@ def scratch(prefix="verif-"):
 
 
 def tlc_cmd(module, cfg, workers, metadir, heap="4g", simulate=None, extra=()):
-    cmd = ["java", "-XX:+UseParallelGC", "-Xmx" + heap, "-cp", JAR, "tlc2.TLC",
+    cmd = ["java", "-XX:+UseParallelGC", "-Xmx" + heap, "-Xss64m", "-Djava.io.tmpdir=" + os.path.dirname(metadir),
+           "-cp", JAR, "tlc2.TLC",
            "-workers", str(workers), "-metadir", metadir, "-noGenerateSpecTE", "-config", cfg]
     if simulate:
         cmd += ["-simulate", simulate]
@@ -71,6 +72,10 @@ def run(module, cfg_text, workers=16, heap="4g", env=None, on_line=None, timeout
                 res["depth"] = int(line.rstrip(".").split()[-1])
             elif line.startswith("Model checking completed. No error has been found"):
                 res["ok"] = True
+            elif line.startswith("Exception in thread") or "StackOverflowError" in line:
+                res["errors"].append(line[:300])
+                p.kill()
+                break
             elif line.startswith("Error:") or errmode:
                 errmode = errmode + 1 if errmode < 40 else 0
                 res["errors"].append(line[:500])
